@@ -170,7 +170,13 @@ func c01probes() []c01probe {
 		add("C01-grpc-metadata-uint32-array-does-not-compile", gd(nil, true,
 			&m.Method{Name: "m", Payload: rt.Obj(tf("owner", &m.Attr{Type: &m.Type{Kind: m.Array, Elem: m.Prim(m.UInt32)}}, false, 1), tf("x", str, false, 2)), GRPC: &m.GRPCEndpoint{Metadata: []m.Mapping{{Attr: "owner"}}}}))
 	}
+	add("C01-streaming-payload-validated-alias", pdesign([]*m.UserType{
+		{Name: "Node", Var: "v1", Attr: &m.Attr{Type: &m.Type{Kind: m.Int}, V: &m.Validation{Enum: []value.V{value.Int(1), value.Int(42)}}}},
+		{Name: "Item", Var: "v3", Attr: rt.Obj(rt.Fld("rank", m.UserRef("Node"), false))}}, nil,
+		&m.Method{Name: "m", Streaming: "payload", StreamingPayload: m.UserRef("Item"), HTTP: &m.HTTPEndpoint{Routes: route("GET", "/m")}}))
 	// fixed findings: the minimal designs that used to fail
+	add("C01-openapi3-streaming-endpoint-several-routes-panics", pdesign(nil, nil, &m.Method{Name: "m", Streaming: "result", Result: rt.Obj(rt.Fld("ratio", m.Prim(m.Int), false)),
+		HTTP: &m.HTTPEndpoint{Routes: []m.Route{{Verb: "GET", Path: "/m"}, {Verb: "GET", Path: "/m/alt"}}}}))
 	{
 		a := &m.Attr{Type: &m.Type{Kind: m.Array, Elem: str}, V: &m.Validation{MaxLen: intp(1)}}
 		add("C01-maxlength-below-2-panics", pdesign(nil, nil, &m.Method{Name: "m", Payload: rt.Obj(rt.Fld("xs", a, false)), HTTP: &m.HTTPEndpoint{Routes: route("POST", "/m")}}))
